@@ -1038,6 +1038,10 @@ impl LockMirror {
         }
         self.hist[t].push((site.to_string(), key.to_string()));
     }
+    /// does thread `t` start an operation that takes a node / edge id after its current one?
+    fn allocates_later(&self, t: usize) -> bool {
+        self.ops[t].iter().skip(self.op_no[t] + 1).any(|o| matches!(o, Op::CNode { .. } | Op::CEdge { .. } | Op::BCN(_) | Op::BCE(_)))
+    }
     fn edge_seq(a: u64, b: u64, d: bool) -> Vec<String> {
         let mut v = vec![format!("node:{a}:out"), format!("node:{b}:in")];
         if !d {
@@ -1217,12 +1221,15 @@ fn run_conc(g: Arc<GraphEngine>, threads: &[Vec<Op>], sched: Sched, edges: HashM
                 if free.len() < parked.len() && !free.is_empty() {
                     avoided += 1;
                 }
+                // threads that will wait AND allocate no id later: a waiting thread resumes when the holder
+                // releases and then runs at the same time as the holder until both park again; if both go
+                // on to allocate a node / edge id the order of the two fetch_add is not scheduled
+                let w: Vec<usize> = (0..parked.len()).filter(|k| wb[*k] && !mirror.allocates_later(parked[*k].0)).collect();
                 if someone_waits {
                     holders[local.below(holders.len() as u64) as usize]
-                } else if free.len() < parked.len() && local.chance(1, 32) {
+                } else if free.len() < parked.len() && !w.is_empty() && local.chance(1, 32) {
                     // now and then grant a thread that will wait: its store call then happens while the
                     // lock it wants next is held, an interleaving the steering would never produce
-                    let w: Vec<usize> = (0..parked.len()).filter(|k| wb[*k]).collect();
                     w[local.below(w.len() as u64) as usize]
                 } else if free.is_empty() {
                     // every grant makes somebody wait (A holds x and wants y, B holds y and wants x):
@@ -1383,8 +1390,45 @@ fn conc_case(
     let ans = m.ask(&line);
     let mthreads: Vec<&str> = ans.split('|').collect();
     let mut agree = mthreads.len() == threads.len();
+    let mi = m.ask("image");
+    let it = oc.image.text();
+    // A thread that waited on a real lock resumes when the holder releases and then runs AT THE SAME
+    // TIME as the holder until both park again.  If both go on to `create_node` in that window, the
+    // order of their two `node_counter.fetch_add` is not under the scheduler's control: the ids may be
+    // swapped w.r.t. the model (which runs a thread's silent steps inside its own grant).  Such a case
+    // is not compared when the difference is in numbers only; the WF oracle below still applies.
+    let node_creators = threads.iter().filter(|t| t.iter().any(|o| matches!(o, Op::CNode { .. } | Op::BCN(_)))).count();
+    let somebody_waited = oc.trace.iter().any(|s| !s.blocked.is_empty());
+    let shape = |x: &str| -> String {
+        let mut out = String::new();
+        let mut in_num = false;
+        for c in x.chars() {
+            if c.is_ascii_digit() {
+                if !in_num {
+                    out.push('#');
+                }
+                in_num = true;
+            } else {
+                in_num = false;
+                out.push(c);
+            }
+        }
+        out
+    };
+    let reals: Vec<String> = (0..threads.len()).map(|t| real_thread_text(t, &oc)).collect();
+    let differs = it != mi || (0..threads.len()).any(|t| mthreads.get(t).map_or(true, |mo| *mo != reals[t]));
+    let same_shape = shape(&it) == shape(&mi) && (0..threads.len()).all(|t| mthreads.get(t).map_or(false, |mo| shape(mo) == shape(&reals[t])));
+    let compared = !(node_creators >= 2 && somebody_waited && differs && same_shape);
+    if !compared {
+        rep.hit("conc.not_compared.node_id_order_not_scheduled");
+        let mut j = threads_json(setup, threads, &oc);
+        j["not_compared"] = json!("two create_node calls ran at the same time after a wait on a real lock; ids differ from the model's in numbers only");
+        j["model_line"] = json!(line);
+        rep.observe(j);
+        agree = false;
+    }
     for t in 0..threads.len() {
-        let real = real_thread_text(t, &oc);
+        let real = &reals[t];
         let mo = mthreads.get(t).copied().unwrap_or("<missing>");
         let input = || {
             let mut j = threads_json(setup, threads, &oc);
@@ -1392,14 +1436,12 @@ fn conc_case(
             j["thread"] = json!(t);
             j
         };
-        if !rep.compare(&format!("{stream}.thread_trace_and_results"), input, &real, mo) {
+        if compared && !rep.compare(&format!("{stream}.thread_trace_and_results"), input, real, mo) {
             agree = false;
         }
         rep.hit_n("conc.steps", oc.trace.iter().filter(|s| s.thread == t && s.site != "thread.start").count() as u64);
     }
-    let mi = m.ask("image");
-    let it = oc.image.text();
-    if !rep.compare(&format!("{stream}.final_image"), || { let mut j = threads_json(setup, threads, &oc); j["model_line"] = json!(line); j }, &it, &mi) {
+    if compared && !rep.compare(&format!("{stream}.final_image"), || { let mut j = threads_json(setup, threads, &oc); j["model_line"] = json!(line); j }, &it, &mi) {
         agree = false;
     }
     let breaks = oc.image.wf_breaks();
@@ -1824,6 +1866,7 @@ fn main() {
     rep.note("add_edge_to_list / remove_edge_from_list run under edge_list_lock(key) (a stripe of index_locks chosen by a hash of the list key, /repo 81b9c5b4); the model has one lock per list key (acquire / release are silent steps, a thread at the acquire of a held lock is not runnable); two keys sharing a stripe only remove interleavings. The lock is invisible in the yield traces: the correspondence is that every real schedule is accepted by the locked model (a grant to a non-runnable model thread would show as a trace disagreement)");
     rep.note("the scheduler's choose mirrors the list lock (LockMirror) and does not grant a thread that would wait for a held stripe; steps where a thread nevertheless waited on a real lock (index stripes shared with list keys, wrong guesses) are counted in conc.steps_with_a_thread_blocked_on_a_real_lock");
     rep.note("candidate classes (observations, not violations, until listed or fixed): graph_engine.create_node/lists_initialised_after_node_visible (Props.create_node_create_edge_race_witness, replayed in stream witness.create_node_vs_create_edge; proposed fix /verif/proposed/C05-create-node-lists-before-record.diff) and graph_engine.delete_edge/edge_still_being_created (Props.delete_edge_of_edge_in_creation_race_witness; needs a preemption between create_edge's store.put of the record and its first lock acquisition, which is not a yield point: not replayable under the scheduler); stream conc.fresh_ids runs programs that name ids handed out during the concurrent phase, batch calls included");
+    rep.note("a concurrent case is not compared with the model (conc.not_compared.node_id_order_not_scheduled, WF oracle still applied) when >= 2 threads create nodes, some thread waited on a real lock during the run, and the real results / traces / image differ from the model's in numbers only: the waiting thread resumes while the releasing thread is still running and the order of their node_counter.fetch_add is then not scheduled");
     rep.note("delete_node's >=100-edge path runs on rayon pool threads that the deterministic scheduler does not control; it is exercised only by the sequential stream (real concurrency, not schedule-controlled); since the list lock every such script must be well-formed (class graph_engine.delete_node/parallel_path_lost_removal is a regression oracle)");
     rep.note("not modelled: property/label index contents, constraints, weak-memory effects inside one TensorStore call; batch operations, add_label / remove_label and re-opening (GraphEngine::with_store over the same store) are exercised sequentially only");
     rep.write(&args.out);
